@@ -20,11 +20,13 @@ import (
 
 type ins struct {
 	off  int
+	del  int // bytes of the original replaced by text
 	text string
 	seq  int
 }
 
 type weaver struct {
+	src   []byte
 	fset  *token.FileSet
 	file  string // base name
 	ins   []ins
@@ -49,6 +51,130 @@ func (w *weaver) site(pos token.Pos, suffix string) string {
 
 func (w *weaver) add(pos token.Pos, text string) {
 	w.ins = append(w.ins, ins{off: w.fset.Position(pos).Offset, text: text, seq: len(w.ins)})
+}
+
+func (w *weaver) replace(pos, end token.Pos, text string) {
+	a, b := w.fset.Position(pos).Offset, w.fset.Position(end).Offset
+	// keep the line count: re-add the newlines of the replaced range
+	text += strings.Repeat("\n", strings.Count(string(w.src[a:b]), "\n"))
+	w.ins = append(w.ins, ins{off: a, del: b - a, text: text, seq: len(w.ins)})
+}
+
+func (w *weaver) text(n ast.Node) string {
+	return string(w.src[w.fset.Position(n.Pos()).Offset:w.fset.Position(n.End()).Offset])
+}
+
+// rewriteSelect turns a select without default into a form where the choice
+// among several ready cases is made by simrt.Sel (i.e. by the simulator)
+// instead of the runtime's random pick: the cases are polled without blocking
+// in rotated order starting at the chosen index; if none is ready, the
+// original blocking select runs (a blocked goroutine is woken by exactly one
+// channel operation, so that path is deterministic). Case bodies stay where
+// they are, as the clauses of a switch over the index of the case that fired.
+func (w *weaver) rewriteSelect(v *ast.SelectStmt, locked bool) bool {
+	n := len(v.Body.List)
+	if n < 2 {
+		return false
+	}
+	type cs struct {
+		recv     bool
+		ch       string
+		val      string // send value
+		lhs      []string
+		define   bool
+	}
+	var cases []cs
+	for _, c := range v.Body.List {
+		cc := c.(*ast.CommClause)
+		if cc.Comm == nil {
+			return false // has default
+		}
+		var k cs
+		switch st := cc.Comm.(type) {
+		case *ast.SendStmt:
+			k.ch, k.val = w.text(st.Chan), w.text(st.Value)
+		case *ast.ExprStmt:
+			u, ok := st.X.(*ast.UnaryExpr)
+			if !ok || u.Op != token.ARROW {
+				return false
+			}
+			k.recv, k.ch = true, w.text(u.X)
+		case *ast.AssignStmt:
+			if len(st.Rhs) != 1 {
+				return false
+			}
+			u, ok := st.Rhs[0].(*ast.UnaryExpr)
+			if !ok || u.Op != token.ARROW {
+				return false
+			}
+			k.recv, k.ch = true, w.text(u.X)
+			k.define = st.Tok == token.DEFINE
+			for _, l := range st.Lhs {
+				k.lhs = append(k.lhs, w.text(l))
+			}
+		default:
+			return false
+		}
+		cases = append(cases, k)
+	}
+	site := w.site(v.Pos(), "select")
+	var pre strings.Builder
+	fmt.Fprintf(&pre, "{ _sk := simrt.Sel(%q, %d); _sr := -1; ", site, n)
+	comm := make([]string, n)
+	for i, k := range cases {
+		fmt.Fprintf(&pre, "_c%d := %s; ", i, k.ch)
+		switch {
+		case !k.recv:
+			fmt.Fprintf(&pre, "_x%d := %s; ", i, k.val)
+			comm[i] = fmt.Sprintf("_c%d <- _x%d", i, i)
+		case len(k.lhs) == 0:
+			comm[i] = fmt.Sprintf("<-_c%d", i)
+		case len(k.lhs) == 1:
+			fmt.Fprintf(&pre, "_v%d := simrt.Zero(_c%d); _ = _v%d; ", i, i, i)
+			comm[i] = fmt.Sprintf("_v%d = <-_c%d", i, i)
+		default:
+			fmt.Fprintf(&pre, "_v%d := simrt.Zero(_c%d); _ok%d := false; _, _ = _v%d, _ok%d; ", i, i, i, i, i)
+			comm[i] = fmt.Sprintf("_v%d, _ok%d = <-_c%d", i, i, i)
+		}
+	}
+	fmt.Fprintf(&pre, "for _si := 0; _si < %d && _sr < 0; _si++ { switch (_sk + _si) %% %d { ", n, n)
+	for i := range cases {
+		fmt.Fprintf(&pre, "case %d: select { case %s: _sr = %d; default: }; ", i, comm[i], i)
+	}
+	pre.WriteString("} }; if _sr < 0 { select { ")
+	for i := range cases {
+		fmt.Fprintf(&pre, "case %s: _sr = %d; ", comm[i], i)
+	}
+	pre.WriteString("} }; switch _sr {")
+	// replace "select {" (up to and including the opening brace)
+	w.replace(v.Pos(), v.Body.Lbrace+1, pre.String())
+	for i, c := range v.Body.List {
+		cc := c.(*ast.CommClause)
+		k := cases[i]
+		hdr := fmt.Sprintf("case %d: ", i)
+		switch len(k.lhs) {
+		case 1:
+			op := "="
+			if k.define {
+				op = ":="
+			}
+			hdr += fmt.Sprintf("%s %s _v%d; ", k.lhs[0], op, i)
+			if k.define && k.lhs[0] != "_" {
+				hdr += fmt.Sprintf("_ = %s; ", k.lhs[0])
+			}
+		case 2:
+			op := "="
+			if k.define {
+				op = ":="
+			}
+			hdr += fmt.Sprintf("%s, %s %s _v%d, _ok%d; ", k.lhs[0], k.lhs[1], op, i, i)
+		}
+		w.replace(cc.Pos(), cc.Colon+1, hdr)
+		w.weaveList(cc.Body, locked)
+	}
+	w.add(v.Body.Rbrace, "default: panic(\"simrt: select fired no case\"); ")
+	w.add(v.End(), " }")
+	return true
 }
 
 // lockKind reports +1 for X.Lock()/X.RLock(), -1 for X.Unlock()/X.RUnlock().
@@ -153,6 +279,11 @@ func (w *weaver) weaveStmt(s ast.Stmt, locked bool, inList bool) {
 	case *ast.EmptyStmt:
 		return
 	}
+	if sel, ok := s.(*ast.SelectStmt); ok && !locked && inList {
+		if w.rewriteSelect(sel, locked) {
+			return
+		}
+	}
 	if !locked && inList {
 		w.add(s.Pos(), fmt.Sprintf("simrt.Yield(%q); ", w.site(s.Pos(), "")))
 	}
@@ -205,7 +336,7 @@ func weaveFile(path, importPath, prefix string) (int, []string, error) {
 	if err != nil {
 		return 0, nil, err
 	}
-	w := &weaver{fset: fset, file: prefix + "/" + filepath.Base(path), count: map[int]int{}}
+	w := &weaver{src: src, fset: fset, file: prefix + "/" + filepath.Base(path), count: map[int]int{}}
 	for _, d := range f.Decls {
 		fd, ok := d.(*ast.FuncDecl)
 		if !ok || fd.Body == nil {
@@ -231,9 +362,12 @@ func weaveFile(path, importPath, prefix string) (int, []string, error) {
 	var out strings.Builder
 	prev := 0
 	for _, in := range w.ins {
+		if in.off < prev {
+			return 0, nil, fmt.Errorf("%s: overlapping edits at offset %d", path, in.off)
+		}
 		out.Write(src[prev:in.off])
 		out.WriteString(in.text)
-		prev = in.off
+		prev = in.off + in.del
 	}
 	out.Write(src[prev:])
 	if err := os.WriteFile(path, []byte(out.String()), 0o644); err != nil {
